@@ -32,7 +32,7 @@ def run(chk: core.Check, tier: str, seed: int) -> None:
     jp = core.import_repo()
     rng = random.Random(seed)
     n = 12000 if tier == "quick" else 250000
-    cands = list(dict.fromkeys(corpus.SEEDS + EXTRA + corpus.repo_test_queries() + corpus.valid_candidates(rng, n)))
+    cands = list(dict.fromkeys(corpus.SEEDS + EXTRA + corpus.repo_test_queries() + corpus.literal_queries() + corpus.valid_candidates(rng, n)))
     recs = [impl.rec_compile(jp, q) for q in cands]
     for r in recs:
         chk.nontrivial.add(tuple(r["q"]))
